@@ -292,6 +292,8 @@ fn spawn_async_ao_list_in_task<'a, SE: extensions::ShellExtensions>(
     }
 
     let join_handle = tokio::spawn(async move {
+        #[cfg(feature = "verif-hooks")]
+        crate::verif::pause("job_start");
         cloned_ao_list
             .execute(&mut cloned_shell, &cloned_params)
             .await
@@ -527,6 +529,8 @@ async fn spawn_pipeline_processes(
         }
 
         spawn_results.push_back(spawn_result);
+        #[cfg(feature = "verif-hooks")]
+        crate::verif::pause(&std::format!("stage_spawned:{current_pipeline_index}"));
     }
 
     Ok(spawn_results)
